@@ -1651,6 +1651,7 @@ func (e *Engine) makeSlice(p *Path, fr *Frame, in *ssa.MakeSlice) []*Path {
 	// ghost allocation counter
 	if g, ok := e.cs.Ghosts["allocBytes"]; ok && !g.IsFunc {
 		cur := st.ghostVal("allocBytes", types.Typ[types.Uint64]).(*Term)
+		st.Assume(BVCmp("bvult", cur, BVU(1<<62, 64))) // A-ALLOC: the counter does not wrap
 		sz := e.elemSize(et)
 		st.Ghost["allocBytes"] = BVBin("bvadd", cur, BVBin("bvmul", c, BVU(uint64(sz), 64)))
 	}
